@@ -25,6 +25,11 @@ from .values import NS_PER_S, SBool, SNum, convert_scalar, raw
 class DType:
     names = None
 
+    def __getattr__(self, attr):
+        from .ctx import unknown_attr
+
+        return unknown_attr("numpy.dtype", attr, ("kind", "unit"))
+
     def __init__(self, kind, unit=None):
         self.kind = kind
         self.unit = unit
@@ -935,6 +940,11 @@ class IdxSet:
 
     __hash__ = None
 
+    def __getattr__(self, attr):
+        from .ctx import unknown_attr
+
+        return unknown_attr("numpy.ndarray", attr, ("n", "member", "shift"))
+
     def __init__(self, n, member, shift=0):
         self.n = n  # length of the source
         self.member = member  # j (source position) -> bool
@@ -1177,6 +1187,11 @@ class MaskedConst:
 
     __array_priority__ = 15
     __hash__ = object.__hash__
+
+    def __getattr__(self, attr):
+        from .ctx import unknown_attr
+
+        return unknown_attr("numpy.ma.core.MaskedConstant", attr, ())
 
     def __repr__(self):
         return "masked"
